@@ -17,7 +17,12 @@ def run_histories(chk: core.Check, n_hist: int, max_ops: int, compare_runs: bool
     expects: list[tuple] = []
     for hno in range(n_hist):
         h = T.gen_history(rng, max_ops=max_ops, reads=reads)
+        T.POOL = None
         t = T.build_initial(h)
+        # in half of the histories the caller hands over the SAME Cell / Row object whenever an operation takes the same
+        # (payload, repeat) again (the API stores copies: harmless by contract)
+        T.POOL = {} if rng.random() < 0.5 else None
+        chk.count("argument objects", "reused across operations" if T.POOL is not None else "fresh for every call")
         g = T.initial_grid(h)
         case0 = {"cols": h["cols"], "rows": h["rows"], "how": h["how"]}
         chk.count("initial", f"{h['how']} rows={len(h['rows'])} rowrep>1={sum(1 for _, r in h['rows'] if r > 1)}")
@@ -57,6 +62,7 @@ def run_histories(chk: core.Check, n_hist: int, max_ops: int, compare_runs: bool
             cs, rs, problems, gx = T.state_of_xml(t.serialize())
             lines.append(line)
             expects.append(("state", cs, rs, case))
+    T.POOL = None
     answers = core.run_driver(lines)
     for line, ans, (kind, cs, rs, case) in zip(lines, answers, expects):
         if not ans.startswith("ok "):
